@@ -62,6 +62,10 @@ def parse_type(s):
     """'opt bits', 'ref:Node', 'int', 'map:ref:int', 'set:bits' ..."""
     s = s.strip()
     opt = False
+    ghost = False
+    if s.startswith("ghost "):
+        ghost = True
+        s = s[6:].strip()
     if s.startswith("opt "):
         opt = True
         s = s[4:].strip()
@@ -69,7 +73,7 @@ def parse_type(s):
     if s.startswith("ref:"):
         cls = s[4:]
         s = "ref"
-    return Field(s, opt=opt, cls=cls)
+    return Field(s, opt=opt, cls=cls, ghost=ghost)
 
 
 class State(object):
